@@ -238,6 +238,12 @@ def replay_element(meta):
         return q('eleshort', q('elefull', meta['key'])) != meta['key']
     if c == 'full name->symbol->full name':
         return q('elefull', q('eleshort', meta['key'])) != meta['key']
+    if c == 'covalent radius units':
+        un = meta.get('unit', ''); rc, so, se = common.run_native(binp, 'covrad %s:%s\n' % (meta['symbol'], un)); o = so.split()
+        if len(o) < 2: return True
+        v, b = float.fromhex(o[0]), float.fromhex(o[1])
+        exp = {'ang': b, 'nm': 0.1 * b, 'bohr': b / 0.52917721}.get(un, -1.0)
+        return abs(v - exp) > 1e-4 * abs(exp)
     if c == 'mass':
         m = float.fromhex(q('mass', meta['symbol'])); ref = float(meta['ref']); return m < 0 or abs(m - ref) > float(MASS_TOL) * ref
     return True
@@ -299,6 +305,35 @@ def check_elements(ck, TO):
         m = outA[('A2', k)][2] or {}; z = int(m.get('Z', 0))
         if k not in badk: elem_violation(ck, 'number->symbol->number', info[k], 'getEleName(%d) = %s, which is element %s' % (z, info[k], PERIODIC.index(info[k]) + 1 if info[k] in PERIODIC else '?'), {'Z': z})
     if unk or unk2: ck.inconc('element queries undecided: %d' % (len(unk) + len(unk2)))
+    # --- C: covalent radii through getCovRad with the unit name as symbolic bytes: "ang" is the table value, "nm" and "bohr" are
+    # that value times the library's own length factors (which are tied to CODATA in the constants clause); any other name is rejected
+    u = [z3.Int('u%d' % i) for i in range(4)]
+    for sym_ in (b'C', b'Si'):
+        def bodyC(it):
+            for x in u: it.assume(z3.And(x >= 0, x < 256))
+            key = it.alloc(3, 'key')
+            for i_, c_ in enumerate(sym_ + b'\0'): it.store(Ptr(key.obj, i_), c_, 1)
+            un = it.alloc(5, 'unit')
+            for i_ in range(4): it.store(Ptr(un.obj, i_), u[i_], 1)
+            it.store(Ptr(un.obj, 4), 0, 1)
+            ang = it.alloc(4, 'ang')
+            for i_, c_ in enumerate(b'ang\0'): it.store(Ptr(ang.obj, i_), c_, 1)
+            return it.call('@h_get_covrad', [key, un]), it.call('@h_get_covrad', [key, ang])
+        rC, st = explore(mod, models.all_models(), bodyC, parsed=parsed, max_paths=400, timeout=300); ck.stubs |= st['models_used']
+        ck.add_witness('getCovRad(%s, unit) with a symbolic unit name of up to 4 bytes: %d paths' % (sym_.decode(), len(rC)), len(rC) >= 4)
+        BOHR = F(52917721, 100000000)   # 0.52917721 Angstrom per bohr
+        qC = []
+        def is_name(nm): return z3.And([u[i_] == (nm + b'\0\0\0\0')[i_] for i_ in range(min(4, len(nm) + 1))])
+        for it_, (val, base) in rC:
+            v = val if z3.is_expr(val) else z3.RealVal(F(val)); b_ = base if z3.is_expr(base) else z3.RealVal(F(base))
+            close = lambda x, y: z3.And(x - y <= F(1, 10000) * y, y - x <= F(1, 10000) * y)
+            want = z3.If(is_name(b'ang'), v == b_, z3.If(is_name(b'nm'), close(v * 10, b_), z3.If(is_name(b'bohr'), close(v * z3.RealVal(BOHR), b_), v == -1)))
+            qC.append((list(it_.pc), [z3.Not(z3.And(b_ > 0, want))]))
+        nameC = 'getCovRad(%s, unit) for every unit name of at most 4 bytes: ang = table value, nm = 0.1 x, bohr = value / 0.52917721 (to 1e-4), anything else rejected' % sym_.decode()
+        sC, mC = smt.agg_core(ck, nameC, qC, TO, probe=[z3.Real('free_cov') != 1])
+        if sC == 'sat':
+            bs = bytes(int((mC or {}).get('u%d' % i_, 0)) & 0xff for i_ in range(4)).split(b'\0')[0].decode('latin1')
+            elem_violation(ck, 'covalent radius units', sym_.decode(), 'getCovRad(%s, "%s") is not the Angstrom value in the named unit' % (sym_.decode(), bs), {'unit': bs})
     # --- B: symbolic symbol (up to 2 characters) through getEleNum, then getEleName / getNucCrg / getMass ---
     b0, b1 = z3.Ints('b0 b1')
     def bodyB(it):
